@@ -10,7 +10,7 @@ use serde_json::{json, Value};
 pub static ENGINE: Engine = Engine {
     prop: "C12",
     level: "exploration",
-    rule: "every byte string <= 2 (3) bytes over all 256 byte values; every sequence <= 4 (5) of lexemes over the 33 token kinds plus extreme lexemes (numbers around 2^63/2^64, 40 digits, non-ASCII digits, unbalanced quote/brace, NUL); flat inputs of every length 2^j, 2^j+-1 up to 64 KiB; every nesting depth 1..200 of 7 nesting constructs; each through tokenize, ParsedFormula::new and (when the reference says all fixed points converge) eval under catch_unwind. CLI: a formula core x every combination of {-t,-v,-m,-r,-d,-p} x {-c none/t/f} x {-f none/t/f} x {no ordering, reversed, superset, formula-as-ordering}, plus -b 0 / -b 2 x {-t,-v,-m,-r}; exit 101 / signal = violation. distinct = distinct (outcome class, token-list) pairs in-process + distinct (exit status, stdout) pairs for the CLI",
+    rule: "every byte string <= 2 (3) bytes over all 256 byte values; every sequence <= 4 (5) of lexemes over the 33 token kinds plus extreme lexemes (numbers around 2^63/2^64, 40 digits, non-ASCII digits, unbalanced quote/brace, NUL); flat inputs of every length 2^j, 2^j+-1 up to 64 KiB; every nesting depth 1..200 of 7 nesting constructs; each through tokenize, ParsedFormula::new and (when the reference says all fixed points converge) eval under catch_unwind. CLI: a formula core x every combination of {-t,-v,-m,-r,-d,-p} x {-c none/t/f} x {-f none/t/f} x {no ordering, reversed, superset, formula-as-ordering}, plus -b 0 / -b 2 x {-t,-v,-m,-r}; and/or chains over 8..257 variables and names of 24..1000 characters with the printing options; exit 101 / signal = violation. distinct = distinct (outcome class, token-list) pairs in-process + distinct (exit status, stdout) pairs for the CLI",
     assumptions: &[
         "resource exhaustion on inputs whose evaluation is exponential by design is outside the claim",
         "fixed points the reference model finds divergent are not evaluated; exhaustion of the 20000-iteration fuel is reported by C01/C06, not here",
@@ -461,6 +461,41 @@ fn cli_sweep(ctx: &mut Ctx) {
             check_cli(ctx, &inv);
             let inv2 = Inv::new("b & a | c", &["-t", "-r"]).with_ordering(&t);
             check_cli(ctx, &inv2);
+        }
+    }
+    // wide formulas: and/or chains over many variables (tables with > 64 columns), long names
+    for n in [8usize, 33, 64, 65, 100, 130, 257] {
+        for op in ["|", "&"] {
+            let names: Vec<String> = (1..=n).map(|i| format!("input_{i:02}")).collect();
+            let text = names.join(&format!(" {op} "));
+            for opts in [vec!["-t"], vec!["-v"], vec!["-t", "-f", "t", "-m"], vec!["-r", "-t", "-c", "f"]] {
+                idx += 1;
+                if !ctx.mine(idx) {
+                    continue;
+                }
+                let mut inv = Inv::new(&text, &opts);
+                inv.channel = Channel::File;
+                inv.dot = n <= 130;
+                inv.parsetree = n <= 130;
+                check_cli(ctx, &inv);
+                let rev: Vec<String> = names.iter().rev().cloned().collect();
+                let inv2 = Inv::new(&text, &opts).with_ordering(&rev.join("\n"));
+                check_cli(ctx, &inv2);
+            }
+        }
+    }
+    for l in [24usize, 25, 26, 40, 64, 65, 128, 256, 1000] {
+        idx += 1;
+        if !ctx.mine(idx) {
+            continue;
+        }
+        let base: String = "request_from_client_number_".chars().cycle().take(l).collect();
+        let text = format!("{base}1 & -{base}2 | fallback");
+        for opts in [vec!["-t"], vec!["-v", "-r"], vec!["-t", "-m"]] {
+            let mut inv = Inv::new(&text, &opts);
+            inv.dot = true;
+            inv.parsetree = true;
+            check_cli(ctx, &inv);
         }
     }
     crate::cli::cleanup_scratch();
